@@ -1,6 +1,7 @@
 //! Per-property workloads and budgets.
 
 pub mod alias;
+pub mod bookkeeping;
 pub mod c02;
 pub mod c04;
 pub mod c06;
@@ -81,6 +82,14 @@ pub fn cfg_any(rng: &mut Rng) -> Cfg {
         _ => gen_cfg(rng, 3, true, 3),
     }
 }
+/// the cheap configurations (no disk, no overlay): many more histories per second on the plain backends
+pub fn cfg_plain_mem(rng: &mut Rng) -> Cfg {
+    match rng.below(8) {
+        0..=4 => Cfg::Mem,
+        5 | 6 => Cfg::Alt(Box::new(Cfg::Mem), "/__alt/p".into()),
+        _ => Cfg::Alt(Box::new(Cfg::Alt(Box::new(Cfg::Mem), "/__in".into())), "/__alt".into()),
+    }
+}
 pub fn cfg_overlay_top(rng: &mut Rng) -> Cfg {
     if rng.chance(1, 8) {
         return Cfg::OvlShared(Box::new(if rng.chance(1, 3) { Cfg::Phys } else { Cfg::Mem }), rng.range(2, 3));
@@ -129,6 +138,7 @@ pub fn dispatch(a: &Args) -> Option<(Acc, RunMeta)> {
         "C01" => {
             let mut acc = engine::run(&spec(a, "c01-any", a.n(3400, 40000), (8, 25), Domain::typed(), cfg_any, true, Some("C01")));
             acc.merge(engine::run(&spec(a, "c01-ovl", a.n(1200, 15000), (8, 25), Domain::typed(), cfg_overlay_top, true, Some("C01"))));
+            acc.merge(engine::run(&spec(a, "c01-mem", a.n(6000, 80000), (8, 25), Domain::typed(), cfg_plain_mem, true, Some("C01"))));
             Some((acc, meta(a, "seeded random histories (8-25 steps) of the typed C01 domain in lock-step with the abstract tree model on generated configurations (Mem, Phys, Alt, Ovl 1-4 layers with generated conflict-free pre-population, stackings to depth 3); distinct = distinct observable states (tree+bytes fingerprint) reached after a step", ENGINE_ASSUMPTIONS)))
         }
         "C09" => {
@@ -144,7 +154,8 @@ pub fn dispatch(a: &Args) -> Option<(Acc, RunMeta)> {
                     w.1 *= 2;
                 }
             }
-            let mut acc = engine::run(&spec(a, "c10-ovl", a.n(2600, 30000), (20, 40), d, cfg_overlay_multi, true, Some("C09")));
+            let mut acc = bookkeeping::run(a);
+            acc.merge(engine::run(&spec(a, "c10-ovl", a.n(2600, 30000), (20, 40), d, cfg_overlay_multi, true, Some("C09"))));
             // model-free pass: untyped calls and write handles kept open across removals (a stale handle that is
             // published after its file was removed must not bring a removed lower-layer entry back)
             let mut du = Domain::untyped();
@@ -198,6 +209,8 @@ pub fn dispatch(a: &Args) -> Option<(Acc, RunMeta)> {
             acc.merge(engine::run(&spec(a, "c12-ovl", a.n(1200, 12000), (10, 25), du, cfg_overlay_top, true, None)));
             // errors on directory contents the path API did not create (symlinks to directories / files, dangling links)
             acc.merge(par_run(a, "c13-hostile-dir", a.n(1500, 15000), c13::hostile_dir_case));
+            // trailing-slash joins must be classified as invalid-path: the complete join sweep of C06
+            acc.merge(c06::run(a).0);
             Some((acc, meta(a, "every Err returned by any operation or observer of typed/untyped histories on all configurations (adapter stackings to depth 3) is checked: label not the placeholder, label related to the call path/destination, kind rules (missing entry -> NotFound, occupied create_dir -> File/DirectoryExists, NotSupported); distinct = distinct observable states", ENGINE_ASSUMPTIONS)))
         }
         "C02" => {
